@@ -12,4 +12,4 @@
    correspondence and the variant in Model/Parse.v must then be adjusted). *)
 From PV Require Export Model.Parse.
 
-Definition current_fixes : fixes := mkFixes true false true.
+Definition current_fixes : fixes := mkFixes true true true.
